@@ -276,6 +276,8 @@ def run_real(cfg, ops=None, rng=None, nops=0, malformed=False, probe=None):
             results.append(res)
             tapes.append(tape)
             if res[2] == 9:
+                if op[0] == "event" and op[2]["oid"] is None and not (op[2]["ex"] is False and op[2]["path"] and op[2]["ot"] == 0):
+                    props.append((len(out_ops) - 1, "idless", "an event without id was acted on (it raised %r): %r" % (res[0], op[2])))
                 break
             cur = res[0]
             if op[0] == "event":
